@@ -18,7 +18,7 @@ Import ListNotations.
 From BB Require Import BN Brute SpaceFacts TrapFacts PercolateFacts AttractorFacts Diagram Invariants Checks Filter
   Strict PetriNet Control Meta FilterFacts PetriNetFacts TrappistFacts DiagramStruct DiagramSem1 DiagramCache
   DiagramDepth DiagramComplete Termination ControlFacts MetaFacts Candidates StrictFacts MinExpandFacts CandidatesFacts SymbolicTest SymbolicTestFacts Signed ReductionFacts ControlFacts2 Main Blocks BlocksFacts ObsFacts OwnerFacts CandidatesTerm
-  PartialOwner BlockMath BlockComplete ASeeds ASeedsFacts LogChecks SkipRule SkipRuleFacts Names NamesFacts Perm PermFacts SCC SCCFacts SCCStruct ControlFacts3 SCCTerm FilterSym Main2 StrategyFacts ControlFacts4 PyLib PySrc PySrcFacts SkipRuleFacts2 SCCComplete SCCAttr BlockComplete2 ControlFacts5 Iso.
+  PartialOwner BlockMath BlockComplete ASeeds ASeedsFacts LogChecks SkipRule SkipRuleFacts Names NamesFacts Perm PermFacts SCC SCCFacts SCCStruct ControlFacts3 SCCTerm FilterSym Main2 StrategyFacts ControlFacts4 PyLib PySrc PySrcFacts SkipRuleFacts2 SCCComplete SCCAttr BlockComplete2 ControlFacts5 Iso SkipSem.
 
 Theorem C05_skip_ops_keep_wellformed : forall (fuel : nat) (N : net) (cfg : config) (d : sd) (o : op), SWF N d -> SWF N (fst (step fuel N cfg d o)).
 Proof. exact step_SWF. Qed.
@@ -65,6 +65,17 @@ Proof. exact leaf_attractors_represented. Qed.
 Theorem C05_no_maa_nothing_lost : forall (N : net) (d : sd), MinFound N d -> (forall i : nat, i < size d -> is_minimal d i = true -> n_skip (get d i) = false) -> (forall L : list state, In L (attractors_b N) -> L <> [] /\ (exists M : space, min_trap N M /\ inside_b L M = true)) -> lost (attractors_b N) (seeds_everywhere N d) = [].
 Proof. exact no_maa_nothing_lost. Qed.
 
+(* every diagram reached by ANY history (skip operations included) satisfies AnyInv: well-formed, trap nodes, strict edges, faithful, and every skip node is expanded, its edges lead to minimal trap spaces with the space itself as motif, and EVERY minimal trap space inside it is one of its children *)
+Theorem C05_skip_semantics_after_any_history : forall (fuel : nat) (N : net) (cfg : config) (h : list op) (d : sd) (r : result), 1 <= max_motifs cfg -> In (d, r) (run fuel N cfg (init N) h) -> AnyInv N d.
+Proof. exact run_AnyInv. Qed.
+
+Theorem C05_skip_semantics_step : forall (fuel : nat) (N : net) (cfg : config) (d : sd) (o : op), 1 <= max_motifs cfg -> AnyInv N d -> AnyInv N (fst (step fuel N cfg d o)).
+Proof. exact step_AnyInv. Qed.
+
+(* in any such diagram every minimal trap space inside an expanded node (canonical or skip) is inside one of its children or is the node itself: skipping never loses a minimal trap space *)
+Theorem C05_expanded_node_keeps_minimal_traps : forall (N : net) (d : sd) (i : nat) (M : space), AnyInv N d -> i < size d -> n_exp (get d i) = true -> min_trap N M -> subspace M (n_space (get d i)) = true -> n_space (get d i) = M \/ (exists c : nat, In c (successors d i) /\ subspace M (n_space (get d c)) = true).
+Proof. exact expanded_min_descends. Qed.
+
 Print Assumptions C05_skip_ops_keep_wellformed.
 Print Assumptions C05_skip_ops_keep_faithful.
 Print Assumptions C05_skip_ops_clear_caches.
@@ -78,3 +89,6 @@ Print Assumptions C05_ideal_seeds_sound.
 Print Assumptions C05_rule_only_for_skip_nodes.
 Print Assumptions C05_leaf_attractors_never_lost.
 Print Assumptions C05_no_maa_nothing_lost.
+Print Assumptions C05_skip_semantics_after_any_history.
+Print Assumptions C05_skip_semantics_step.
+Print Assumptions C05_expanded_node_keeps_minimal_traps.
